@@ -193,8 +193,9 @@ def _strip(argv, drop):
 
 def _norm_paths(argv):
     """compile_commands.json spells source-tree files absolutely and build-tree files relative to
-    its `directory` (the build dir); Make and Ninja (with srcdir=/srcdir) give the same strings"""
-    return argv
+    its `directory` (the build dir); Make and Ninja (with srcdir=/srcdir) give the same strings
+    except for a leading './' on top-level build-tree files (same file)"""
+    return [a[2:] if a.startswith('./') and len(a) > 2 else a for a in argv]
 
 
 NINJA_ONLY = ['-fdiagnostics-color', '-fcolor-diagnostics']
@@ -301,4 +302,29 @@ def b_build_step(s: str) -> bool:
     ok = a_make == want and a_ninja == want
     if entries:
         ok = ok and list(entries[0].get('arguments') or []) == want
+    return R(ok)
+
+
+def g_link_lib_global(s: str) -> bool:
+    """executable linking a project static library, with a *global* link option: Make, Ninja and
+    compile_commands.json still hand the linker the same argument vector (global and per-target
+    flag variables, library flags)
+    pre: len(s) == N and no_ctl(s)
+    post: _
+    """
+    build, ctx = _context()
+    if s != '':
+        ctx['global_link_options']([s], family='native')
+    lib = ctx['static_library']('util', files=['u.c'])
+    ctx['executable']('prog', files=['a.c'], libs=[lib])
+    edges, mk, nf, cdb = _run_handlers(build)
+    a_make = _make_argv(mk, 'prog')
+    a_ninja = _ninja_argv(nf, 'prog')
+    entries = [c for c in cdb._commands if c.get('output') == 'prog']
+    if a_make is None or a_ninja is None or len(entries) != 1:
+        return R(False)
+    a_cdb = entries[0].get('arguments')
+    a_ninja = _strip(a_ninja, NINJA_ONLY)
+    ok = a_cdb is not None and a_make == a_ninja and _norm_paths(a_make) == _norm_paths(list(a_cdb))
+    ok = ok and './libutil.a' in a_make and (s == '' or a_make.count(s) == 1)
     return R(ok)
